@@ -19,6 +19,8 @@ def plan(tier, seed):
                env=dict(VERIF_SLEN=sl, VERIF_KIND=kind))
         j["name"] += "[kind=%d]" % kind
         jobs.append(j)
+    from . import cats
+    jobs += cats.jobs("C14", tier)
     jobs.append(ch("C14", "vf/pyshim/h_open.py", "h_open_directory", t,
                    ["api.ParquetFile.__init__ (directory without _metadata)", "util.analyse_paths",
                     "api.ParquetFile._set_attrs", "api.paths_to_cats"]))
